@@ -11,7 +11,6 @@ import (
 	"fqverif/fw"
 )
 
-
 // symExceptions: calls of panicking scalar Sym accessors that are not dominated by a Sym != nil
 // test. key = enclosing function | accessor | ordinal. Confirmed by reading.
 var symExceptions = map[string]string{
@@ -60,6 +59,13 @@ func c06Sym(r *fw.Run, p *fw.Program) {
 				continue
 			}
 			if reason, ok := symExceptions[key]; ok {
+				if chk := symExceptionChecks[key]; chk != nil {
+					if why := chk(p, c); why != "" {
+						ru.Fail(key, p.Rel(c.Pos()), "the exception for this accessor ("+reason+") no longer holds: "+why+"; the accessor panics on the uncovered value")
+						continue
+					}
+					reason += " [checked]"
+				}
 				ru.Except(key, p.Rel(c.Pos()), reason)
 				continue
 			}
